@@ -521,6 +521,38 @@ func nilElementRule(o *Ob) {
 				validated[field] = true
 			}
 		}
+		// the same test said with the library's search: the hook fails when the list contains a nil entry
+		for _, c := range e.Calls(cu, "slices.ContainsFunc") {
+			coll := e.Arg(c, 0)
+			if !strings.Contains(coll, ".") {
+				continue
+			}
+			pred := e.FuncValue(c.Common().Args[1])
+			if pred == nil {
+				continue
+			}
+			isNilPred := true
+			for _, ret := range (&Walk{Fn: pred}).FromEntry().Returns() {
+				if e.X(pred, ret.Results[0]) != "(p0 == nil)" {
+					isNilPred = false
+				}
+			}
+			if !isNilPred {
+				continue
+			}
+			has := L(e.X(cu, c.(*ssa.Call)), true)
+			rejected := e.CountLitEdges(cu, has) > 0
+			for _, ec := range e.EdgesAsserting(cu, has) {
+				for _, ret := range (&Walk{Fn: cu}).FromEdgeCtx(ec).Returns() {
+					if e.X(cu, ret.Results[0]) == "nil" {
+						rejected = false
+					}
+				}
+			}
+			if rejected {
+				validated[coll[strings.LastIndex(coll, ".")+1:]] = true
+			}
+		}
 	}
 	// resolveFilepaths runs only after a successful Load
 	postLoad := map[string]bool{}
